@@ -1442,6 +1442,14 @@ class Interp:
             self._store_attr(args[0], tm.const_val(args[1]), T("deleted"),
                              live)
             return NONE
+        if fn.op == "attr" and fn.args[1] == "get" and 1 <= len(args) <= 2:
+            du = self.unname(fn.args[0])
+            if du.op == "dict" and args[0].op in ("const", "enum") and all(
+                    k.op in ("const", "enum") for k, _ in du.args):
+                for k, v in du.args:
+                    if k is args[0]:
+                        return v
+                return args[1] if len(args) == 2 else NONE
         if name in ("builtins.tuple", "builtins.list") and len(args) == 1:
             au = self.unname(args[0])
             if au.op in ("tuple", "list"):
